@@ -28,7 +28,7 @@ static eav_ascii_f ascii_fn(int c)
 static bool inv(const eav_t *e, int c, bool result_valid)
 {
     if (e->errcode < 0 || e->errcode >= EEAV_MAX) return false;
-    if (e->idnmsg != NULL && e->idnmsg != cb_idn_message) return false;
+    if (e->idnmsg != NULL && !CB_IS_IDN_MESSAGE(e->idnmsg)) return false;
     if (e->errcode == EEAV_IDN_ERROR && e->idnmsg == NULL) return false;
     if (e->result != NULL && !result_valid) return false;
     if (c == -1)
@@ -141,14 +141,15 @@ void harness(void)
         VF_ASSERT(e.result->rc == f.result->rc && e.result->idn_rc == f.result->idn_rc && e.result->is_domain == f.result->is_domain &&
                   e.result->is_ipv4 == f.result->is_ipv4 && e.result->is_ipv6 == f.result->is_ipv6, "C13: result fields equal a fresh object's");
         VF_ASSERT(ret == expect_accept(e.result->rc, e.allow_tld), "C08: decision follows rc and the current allow_tld");
-        VF_ASSERT(eav_errstr(&e) == eav_errstr(&f), "C13: message equals a fresh object's (no stale IDN message)");
+        { const char *ma = eav_errstr(&e), *mb = eav_errstr(&f);
+          VF_ASSERT(ma == mb || (CB_IS_IDN_MESSAGE(ma) && CB_IS_IDN_MESSAGE(mb)), "C13: message equals a fresh object's (no stale IDN message)"); }
         VF_COVER(prev_idn != NULL && ret == 1, "accept-after-idn-error");
         eav_free(&f);
         VF_FORGET(cb_last_result);
     } break;
     case OP_ERRSTR: {
         const char *m = eav_errstr(&e);
-        if (prev_err == EEAV_IDN_ERROR) VF_ASSERT(m == cb_idn_message, "C13: eav_errstr keeps describing the recorded IDN failure");
+        if (prev_err == EEAV_IDN_ERROR) VF_ASSERT(CB_IS_IDN_MESSAGE(m), "C13: eav_errstr keeps describing the recorded IDN failure");
         else VF_ASSERT(m == cb_msg_of(prev_err), "C13: eav_errstr is the message of the recorded code");
         VF_ASSERT(m != NULL && m[0] != 0, "C15: never an empty message");
     } break;
